@@ -150,11 +150,12 @@ let prop_line tag (c : case) clause cls detail =
 (* .keyvalue() ids are heap addresses; the model's are tags.  Renaming makes them comparable as OUTPUT, but not
    when an id flows on into a further step (a method, arithmetic, a comparison): then the outcome depends on its
    digits.  An id is exposed by the key "id" or by a wildcard over the generated triple. *)
+let nested_kv = ref false   (* the path applies .keyvalue() to .keyvalue() output: then ".value" can be an id too *)
 let rec id_flows_on (top : bool) (ch : chain) : bool =
   match ch with
   | [] -> false
   | s :: rest ->
-    let exposing = (match s with SKey k -> unchars k = "id" | s -> is_wild s) in
+    let exposing = (match s with SKey k -> unchars k = "id" || (!nested_kv && unchars k = "value") | s -> is_wild s) in
     (exposing && (rest <> [] || not top))
     || (match s with
         | SBin (_, l, r) -> id_flows_on false l || id_flows_on false r
@@ -167,6 +168,7 @@ let rec id_flows_on (top : bool) (ch : chain) : bool =
 (* ---------- T: model vs implementation ---------- *)
 let tie_leg (c : case) =
   let lib = lib_of c in
+  nested_kv := (let n = ref 0 in ignore (chain_has (fun s -> if is_kv s then incr n; false) c.path.p_root); !n >= 2);
   if c.haskv && id_flows_on true c.path.p_root then bump "skipped_kv_id_flows" else
   List.iter (fun r ->
       bump "runs";
@@ -215,7 +217,10 @@ let spec_obs lib (c : case) (o : opts) entry q =
   | "match" -> obs_of_b (Ret (api_spec_match lib q c.path c.doc o))
   | _ -> obs_of_b (Ret (api_spec_eom lib q c.path c.doc o))
 
-let reads_kv_id (c : case) = c.haskv && chain_has (function SKey k -> unchars k = "id" | _ -> false) c.path.p_root
+let reads_kv_id (c : case) =
+  c.haskv && (chain_has (function SKey k -> unchars k = "id" | _ -> false) c.path.p_root
+              || (nested_kv := (let n = ref 0 in ignore (chain_has (fun s -> if is_kv s then incr n; false) c.path.p_root); !n >= 2);
+                  id_flows_on true c.path.p_root))
 
 let spec_leg (c : case) =
   let lib = lib_of c in
@@ -417,8 +422,17 @@ let check_c06 (c : case) =
               | ObItems _ -> if r.silent then ObErr OENull else ObErr OEVerbose
               | other -> other) in
           if not (eq m m_exp) then prop_line "C06" c "match-vs-query" "NONE" (string_of_obs m ^ " vs " ^ string_of_obs q);
-          (* ExistsOrMatch dispatch *)
-          let em_exp = if c.path.p_pred then m else x in
+          (* ExistsOrMatch dispatch: Match for a predicate check expression, Exists otherwise.  Whether the path IS a
+             predicate check is read off the tree (one boolean-valued step, nothing after it), not off the
+             implementation's own IsPredicate flag, which is checked against it *)
+          let syn_pred = (match c.path.p_root with
+              | [SBin ((BAnd | BOr | BEq | BNe | BLt | BGt | BLe | BGe | BStartsWith), _, _)] -> true
+              | [SUn ((UExists | UNot | UIsUnknown), _)] -> true
+              | [SRegex _] -> true
+              | _ -> false) in
+          if syn_pred <> c.path.p_pred then
+            prop_line "C06" c "ispredicate-flag" "NONE" (Printf.sprintf "(IsPredicate %b, the tree says %b)" c.path.p_pred syn_pred);
+          let em_exp = if syn_pred then m else x in
           if not (eq em em_exp) then prop_line "C06" c "eom-dispatch" "NONE" (string_of_obs em);
           (* Query succeeds => Exists = non-empty *)
           (match q with
